@@ -2,7 +2,7 @@
    Model/Slots.v mirrors util/fenwick_tree.go, slot_offsetter.go, sequenced_slots.go and slot_sequencer.go and is composed
    with the ByteBuffer model (whose save-area behaviour is C09's refinement theorem) and the regenerated OffsetSlot.
    PARTIAL: the theorems below cover the sorted container (Push/Pop against a finite map, duplicates and the slot limit
-   without disturbing stored entries), OffsetSlot, and the Fenwick tree's unit responses for every size <= 24.  The
+   without disturbing stored entries), OffsetSlot, and the Fenwick tree's unit responses for every size <= 64.  The
    end-to-end statement "the slot popped for a number addresses the bytes saved under it, whatever was discarded before"
    is carried for all explored histories by the correspondence run and the extracted ParkedMap oracle; its Coq proof
    (virtual-coordinate invariant + Fenwick linearity for all sizes) is not done. *)
@@ -39,7 +39,7 @@ Proof. exact offset_slot_spec. Qed.
 Print Assumptions C20_offset_slot.
 
 Theorem C20_fenwick_unit_response_partial : forall n i q,
-  0 <= n <= 24 -> 0 <= i < n -> 0 <= q < n -> fw_unit_ok n i q = true.
+  0 <= n <= 64 -> 0 <= i < n -> 0 <= q < n -> fw_unit_ok n i q = true.
 Proof. exact fw_unit_response. Qed.
 Print Assumptions C20_fenwick_unit_response_partial.
 
